@@ -50,6 +50,8 @@ THEOREMS = [
     'Nb.C17.order_roundtrip',
     'Nb.C17.data_block_roundtrip',
     'Nb.C17.data_block_roundtrip_gifti',
+    'Nb.C17.data_block_roundtrip_any_memory_order',
+    'Nb.C17.writer_bytes_memory_order_independent',
     'Nb.C17.codes_pinned',
 ]
 ASSUMPTIONS = [
@@ -69,8 +71,8 @@ ASSUMPTIONS = [
 RULE = ('hist: every intent list over 3 codes (incl. TIME_SERIES) up to length 5 (quick) / 6 (thorough) x every single '
         'mutating op (remove by each intent, pop at every index in [-n-1,n]) with all selections/aggregations '
         'observed before and after, plus random histories with re-added objects; block: dtype{u1,i4,f4} x 1-3 dims '
-        'x {ASCII,B64BIN,B64GZ} x {LE,BE} x {row,col}; xml: 0-4 arrays x encodings x orders x declared endian x '
-        'buffer sizes {1,7,64,default} x metadata/labels with XML-special and non-ASCII text x coordsys. '
+        'x {ASCII,B64BIN,B64GZ} x {LE,BE} x {row,col}; wblock: in-memory byte order {native,swapped} x memory layout {C,F}; xml: 0-4 arrays x encodings x orders x declared endian x '
+        'buffer sizes {1,7,64,default} x in-memory byte order {native,swapped} x {one hop, load->re-save->load} x metadata/labels with XML-special and non-ASCII text x coordsys. '
         'A case is non-trivial when it has >=1 array/op; distinct by its full JSON description.')
 
 PENDING_FINDINGS = [
@@ -487,7 +489,7 @@ def oracle_block(case, out):
     return None
 
 
-def _ascii_float_check(d, out, tag):
+def _ascii_float_check(d, out, tag, hops=1):
     if not out.startswith('ok ' + lst(d['shape']) + ':'):
         return f'{tag} ASCII float array {d["shape"]}: got {out[:100]}'
     got = json.loads(out.split(':', 1)[1])
@@ -495,7 +497,7 @@ def _ascii_float_check(d, out, tag):
         return f'{tag} ASCII float array: {len(got)} elements, expected {len(d["bits"])}'
     gv = np.array(got, dtype='<u4').view('<f4').astype(np.float64)
     wv = np.array(d['bits'], dtype='<u4').view('<f4').astype(np.float64)
-    tol = 0.5e-6 * (1 + 1e-9) + np.spacing(np.abs(wv).astype(np.float32)).astype(np.float64)
+    tol = hops * (0.5e-6 * (1 + 1e-9) + np.spacing(np.abs(wv).astype(np.float32)).astype(np.float64))
     bad = np.nonzero(~(np.abs(gv - wv) <= tol))[0]
     if len(bad):
         i = int(bad[0])
@@ -505,22 +507,40 @@ def _ascii_float_check(d, out, tag):
 
 # ------------------------------------------------------------------------------------------ wblock (writer side)
 
+def mem_array(dt, shape, bits, swap=False, fmem=False):
+    """the array as the user / a previous load holds it: values from `bits`, memory byte order native or swapped
+    (value-preserving `astype(dtype.newbyteorder())`), C- or F-contiguous"""
+    arr = arr_from_bits(dt, shape, bits)
+    if swap:
+        arr = arr.astype(arr.dtype.newbyteorder())
+    if fmem:
+        arr = np.asfortranarray(arr)
+    return arr
+
+
+def mem_is_big(arr):
+    bo = arr.dtype.byteorder
+    if bo in '|=':
+        return not np.little_endian
+    return bo == '>'
+
+
 def mk_wblock(d):
     import sys
     d = dict(d)
     d['op'] = 'wblock'
     w = DTYPES[d['dt']][1]
-    line = ' '.join(['C17 wblock', str(w), '1' if sys.byteorder == 'big' else '0', '1' if d['ord'] == 'F' else '0',
-                     ','.join(map(str, d['shape'])) or '-', ','.join(map(str, d['bits'])) or '-'])
+    arr = mem_array(d['dt'], d['shape'], d['bits'], d.get('swap', False), d.get('fmem', False))
+    line = ' '.join(['C17 wblock', str(w), '1' if sys.byteorder == 'big' else '0', '1' if mem_is_big(arr) else '0',
+                     '1' if d['ord'] == 'F' else '0', ','.join(map(str, d['shape'])) or '-',
+                     hexbytes(arr.tobytes('C'))])      # element bytes exactly as they lie in memory, C order
     return Case(line, d, ('wblock', json.dumps(d, sort_keys=True)), 'wblock')
 
 
 def impl_wblock(case):
     g, p, u, n1 = _mods()
     d = case.data
-    arr = arr_from_bits(d['dt'], d['shape'], d['bits'])
-    if d.get('fmem'):
-        arr = np.asfortranarray(arr)
+    arr = mem_array(d['dt'], d['shape'], d['bits'], d.get('swap', False), d.get('fmem', False))
     try:
         el = g._data_tag_element(arr, u.gifti_encoding_codes.specs[d['enc']], np.dtype(d['dt']),
                                  u.array_index_order_codes.code[d['ord']])
@@ -534,10 +554,14 @@ def impl_wblock(case):
 
 def oracle_wblock(case, out):
     d = case.data
-    arr = arr_from_bits(d['dt'], d['shape'], d['bits'])
-    want = hexbytes(arr.astype(arr.dtype.newbyteorder('=')).tobytes(d['ord']))
+    w = DTYPES[d['dt']][1]
+    # independent of NumPy casting: the machine-order bytes of the bit patterns, in the requested index order
+    idx = np.arange(len(d['bits'])).reshape(d['shape']).ravel(d['ord'])
+    import sys
+    want = hexbytes(b''.join(int(d['bits'][i]).to_bytes(w, sys.byteorder) for i in idx))
     if out != want:
-        return f'[write] _data_tag_element({d["enc"]},{d["ord"]},{d["dt"]},{d["shape"]}) wrote bytes {out[:80]} expected {want[:80]}'
+        return (f'[write] _data_tag_element({d["enc"]},{d["ord"]},{d["dt"]},{d["shape"]},memory '
+                f'{"swapped" if d.get("swap") else "native"}) wrote bytes {out[:80]} expected {want[:80]}')
     return None
 
 
@@ -573,9 +597,7 @@ def build_image(d):
     img = g.GiftiImage(meta=g.GiftiMetaData([tuple(kv) for kv in d['meta']]), labeltable=lt,
                        version=d.get('version', '1.0'))
     for a in d['arrays']:
-        arr = arr_from_bits(a['dt'], a['shape'], a['bits'])
-        if a['ord'] == 'F' and a.get('fmem'):
-            arr = np.asfortranarray(arr)
+        arr = mem_array(a['dt'], a['shape'], a['bits'], a.get('swap', False), bool(a.get('fmem')))
         cs = None
         if a['cs'] is not None:
             cs = g.GiftiCoordSystem(a['cs']['ds'], a['cs']['xs'], np.array(a['cs']['xf'], dtype=np.float64))
@@ -669,6 +691,18 @@ def run_xml(case):
                         tr['img'] = g.GiftiImage.from_bytes(xml)
                     finally:
                         g.GiftiImage.parser = old
+                if d.get('hops', 1) == 2 and tr['img'] is not None:
+                    # load -> re-save -> load: the arrays now in memory are what read_data_block produced
+                    # (non-native '>' dtypes for documents that declared BigEndian)
+                    tr['img1'] = tr['img']
+                    tr['stage'] = 'resave'
+                    xml2 = tr['img1'].to_xml()
+                    tr['xml2'] = xml2
+                    tr['stage'] = 'parse2'
+                    del events[:]
+                    parser = Rec(buffer_size=d['buf']) if d['buf'] else Rec()
+                    parser.parse(string=xml2)
+                    tr['img'] = parser.img
                 tr['stage'] = 'done'
             except Exception as e:
                 tr['exc'] = e
@@ -765,7 +799,18 @@ def oracle_xml(case, out):
     if tr.get('exc') is not None:
         e = tr['exc']
         return f'[error:{tr["stage"]}] {type(e).__name__}: {str(e)[:120]} for a valid image'
-    img = tr.get('img')
+    if d.get('hops', 1) == 2:
+        bad = _check_image(d, tr.get('img1'), 1)
+        if bad:
+            return bad
+        bad = _check_image(d, tr.get('img'), 2)
+        return bad and bad.replace(']', ':resaved]', 1)
+    return _check_image(d, tr.get('img'), 1)
+
+
+def _check_image(d, img, hop):
+    """the image read back after `hop` write/parse hops has the written content"""
+    g, p, u, n1 = _mods()
     if img is None:
         return '[error:parse] parser produced no image'
     if str(img.version) != d.get('version', '1.0'):
@@ -782,7 +827,8 @@ def oracle_xml(case, out):
     if img.numDA != len(d['arrays']) or len(img.darrays) != len(d['arrays']):
         return f'[data:count] {len(img.darrays)} arrays read, {len(d["arrays"])} written'
     for i, (da, a) in enumerate(zip(img.darrays, d['arrays'])):
-        where = f'array {i} ({a["dt"]} {a["shape"]} {a["enc"]} {a["ord"]} {a["endian"]} buf={d["buf"]} {d["variant"]})'
+        where = (f'array {i} ({a["dt"]} {a["shape"]} {a["enc"]} {a["ord"]} {a["endian"]} buf={d["buf"]} {d["variant"]}'
+                 f'{" memory-swapped" if a.get("swap") else ""} hop {hop})')
         if da.data is None:
             return f'[data:missing] {where}: no data'
         if da.data.dtype.kind != DTYPES[a['dt']][0] or da.data.dtype.itemsize != DTYPES[a['dt']][1]:
@@ -792,7 +838,7 @@ def oracle_xml(case, out):
         got = bits_of(da.data)
         if a['enc'] == 'ASCII' and a['dt'] == 'float32':
             bad = _ascii_float_check({'shape': a['shape'], 'bits': a['bits']},
-                                     'ok ' + lst(a['shape']) + ':' + lst(got), '[data:values] ' + where)
+                                     'ok ' + lst(a['shape']) + ':' + lst(got), '[data:values] ' + where, hop)
             if bad:
                 return bad
         elif got != a['bits']:
@@ -811,7 +857,7 @@ def oracle_xml(case, out):
             return f'[coordsys:spaces] {where}'
         xf = np.asarray(da.coordsys.xform, dtype=np.float64)
         want = np.array(cs['xf'], dtype=np.float64)
-        if xf.shape != want.shape or not np.all(np.abs(xf - want) <= 0.5e-6 * (1 + 1e-9) + 4 * np.spacing(np.abs(want))):
+        if xf.shape != want.shape or not np.all(np.abs(xf - want) <= hop * (0.5e-6 * (1 + 1e-9) + 4 * np.spacing(np.abs(want)))):
             return f'[coordsys:xform] {where}: read {xf.tolist()!r}, written {want.tolist()!r}'
     return None
 
@@ -984,6 +1030,8 @@ def shrink_candidates(case):
         yield mk_xml(dict(d, variant='plain'), case.stream)
     if d['buf']:
         yield mk_xml(dict(d, buf=0), case.stream)
+    if d.get('hops', 1) == 2:
+        yield mk_xml(dict(d, hops=1), case.stream)
     for i, a in enumerate(arrs):
         def rep(**kw):
             return mk_xml(dict(d, arrays=arrs[:i] + [dict(a, **kw)] + arrs[i + 1:]), case.stream)
@@ -993,6 +1041,10 @@ def shrink_candidates(case):
             yield rep(cs=None)
         if a['endian'] != 'LittleEndian':
             yield rep(endian='LittleEndian')
+        if a.get('swap'):
+            yield rep(swap=False)
+        if a.get('fmem'):
+            yield rep(fmem=False)
         if len(a['shape']) > 1:
             n = int(np.prod(a['shape']))
             yield rep(shape=[n])
@@ -1088,7 +1140,7 @@ def rand_array(rng, enc=None, order=None, endian=None, zero=False):
     return {'dt': dt, 'shape': shape, 'bits': rand_bits(rng, dt, int(np.prod(shape)), enc == 'ASCII'),
             'intent': rng.choice([0, 1002, 1008, 1009, 2001, 2005]), 'enc': enc, 'ord': order or rng.choice('CF'),
             'endian': endian or rng.choice(['LittleEndian', 'BigEndian']), 'meta': rand_meta(rng), 'cs': rand_cs(rng),
-            'fmem': rng.random() < 0.3}
+            'fmem': rng.random() < 0.3, 'swap': rng.random() < 0.35}
 
 
 def rand_labels(rng):
@@ -1111,7 +1163,8 @@ def rand_image(rng, zero=False):
     n = rng.choice([0, 1, 1, 2, 3, 4])
     return {'arrays': [rand_array(rng, enc, order, endian, zero and i == 0) for i in range(n)], 'meta': rand_meta(rng),
             'labels': rand_labels(rng), 'buf': rng.choice([0, 1, 7, 64]),
-            'variant': rng.choice(['plain', 'plain', 'pretty', 'cdata']), 'version': rng.choice(['1.0', '1.0', '1'])}
+            'variant': rng.choice(['plain', 'plain', 'pretty', 'cdata']), 'version': rng.choice(['1.0', '1.0', '1']),
+            'hops': rng.choice([1, 1, 2])}
 
 
 def hist_cases(rng, tier):
@@ -1214,7 +1267,7 @@ def wblock_cases(rng, tier):
     out = []
     for _ in range({'quick': 400, 'thorough': 5000, 'search': 1000}[tier]):
         a = rand_array(rng, enc=rng.choice(['B64BIN', 'B64GZ']))
-        out.append(mk_wblock({k: a[k] for k in ('dt', 'shape', 'bits', 'enc', 'ord', 'fmem')}))
+        out.append(mk_wblock({k: a[k] for k in ('dt', 'shape', 'bits', 'enc', 'ord', 'fmem', 'swap')}))
     return out
 
 
@@ -1232,6 +1285,13 @@ def xml_cases(rng, tier):
                                  'meta': [['Name', 'a<b>&"c\'é']], 'cs': None}
                             out.append(mk_xml({'arrays': [a], 'meta': [['k&', '<v>']], 'labels': [[1, 'l<&>日', None]],
                                                'buf': buf, 'variant': 'plain'}, 'xml-grid'))
+                            if buf in (0, 7):
+                                # in-memory byte order swapped (user-supplied '>' data), and the
+                                # load -> re-save -> load chain (arrays parsed from a BigEndian document keep '>')
+                                out.append(mk_xml({'arrays': [dict(a, swap=True)], 'meta': [], 'labels': [],
+                                                   'buf': buf, 'variant': 'plain', 'hops': 1 + (buf == 7)}, 'xml-grid'))
+                                out.append(mk_xml({'arrays': [a], 'meta': [['k&', '<v>']], 'labels': [[1, 'l<&>日', None]],
+                                                   'buf': buf, 'variant': 'plain', 'hops': 2}, 'xml-grid'))
     for _ in range({'quick': 3000, 'thorough': 50000, 'search': 3000}[tier]):
         out.append(mk_xml(rand_image(rng), 'xml'))
     return out
